@@ -2,7 +2,7 @@
    _history.py (QuestionHistory), browser.py generate_service_query + _group_ptr_queries_with_known_answers,
    info.py _generate_request_query / _add_question_with_known_answers, and the responder's history update
    in query_handler.py async_response. *)
-From ZC Require Import Model.Base Model.PyRec Model.Dict Model.Re Model.Utf8 Model.Cache Model.Respond Gen.Const Gen.DnsPure.
+From ZC Require Import Model.Base Model.PyRec Model.Dict Model.Re Model.Utf8 Model.Cache Model.Respond Gen.Const Gen.DnsPure Gen.Sites.
 
 (* ---- QuestionHistory: dict DNSQuestion -> (time, set of known answers) ---- *)
 Definition history := list (pyrec * (Z * list pyrec)).
@@ -12,17 +12,21 @@ Definition hist_add (h : history) (q : pyrec) (now : Z) (known : list pyrec) : h
 Definition subset_ident (a b : list pyrec) : bool := forallb (fun x => existsb (fun y => gen_eq y x) b) a.
 
 (* suppresses(question, now, known_answers) *)
-Definition hist_suppresses (h : history) (q : pyrec) (now : Z) (known : list pyrec) : bool :=
+Definition hist_suppresses : history -> pyrec -> Z -> list pyrec -> bool :=
+  Eval cbv beta iota delta [sop_apply site_hist_suppress_age] in
+  fun (h : history) (q : pyrec) (now : Z) (known : list pyrec) =>
   match hist_get h q with
   | None => false
   | Some (than, prev) =>
-      if now - than >? C_DUPLICATE_QUESTION_INTERVAL then false
+      if sop_apply site_hist_suppress_age (now - than) C_DUPLICATE_QUESTION_INTERVAL then false
       else subset_ident prev known            (* previous_known_answers - known_answers is empty *)
   end.
 
 (* async_expire(now) *)
-Definition hist_expire (h : history) (now : Z) : history :=
-  filter (fun e => negb (now - fst (snd e) >? C_DUPLICATE_QUESTION_INTERVAL)) h.
+Definition hist_expire : history -> Z -> history :=
+  Eval cbv beta iota delta [sop_apply site_hist_expire_age] in
+  fun (h : history) (now : Z) =>
+  filter (fun e => negb (sop_apply site_hist_expire_age (now - fst (snd e)) C_DUPLICATE_QUESTION_INTERVAL)) h.
 
 Definition mkq (name : text) (ty : Z) (qu : bool) : pyrec :=
   {| p_kind := KQuestion; p_name := name; p_type_ := ty; p_class_ := if qu then C_CLASS_IN_UNIQUE else C_CLASS_IN;
@@ -70,10 +74,12 @@ Definition sort_desc (l : list (pyrec * list pyrec)) : list (pyrec * list pyrec)
 
 Record bucket := { b_bytes : Z; b_entries : list (pyrec * list pyrec) }.
 
-Fixpoint place (bs : list bucket) (sz : Z) (e : pyrec * list pyrec) (maxb : Z) : list bucket :=
+Definition place :=
+  Eval cbv beta iota delta [sop_apply site_bucket_fits] in
+  fix place (bs : list bucket) (sz : Z) (e : pyrec * list pyrec) (maxb : Z) {struct bs} : list bucket :=
   match bs with
   | [] => [{| b_bytes := sz; b_entries := [e] |}]
-  | b :: r => if b_bytes b + sz <=? maxb then {| b_bytes := b_bytes b + sz; b_entries := b_entries b ++ [e] |} :: r
+  | b :: r => if sop_apply site_bucket_fits (b_bytes b + sz) maxb then {| b_bytes := b_bytes b + sz; b_entries := b_entries b ++ [e] |} :: r
               else b :: place r sz e maxb
   end.
 
